@@ -16,6 +16,11 @@ def more():
     for pid in ("C01", "C02", "C03", "C06", "C07", "C10", "C11"):
         reg[pid] = dict(family=fam_hist.Family(pid), lean=[f"TinyFlux.Props.{pid}"], gen=("Utils", "Forward") if pid == "C10" else ("Utils",), ref=f"5/{pid}",
                         replay=fam_hist.replay)
+    import fam_io
+
+    for pid, gen in (("C04", ()), ("C12", ()), ("C13", ()), ("C15", ("Modes", "Decorators")), ("C16", ())):
+        reg[pid] = dict(family=fam_io.Family(pid), lean=[f"TinyFlux.Props.{pid}"], gen=gen, ref=f"5/{pid}",
+                        replay=fam_io.replay)
     reg["C05"] = dict(family=fam_c05.Family(), lean=["TinyFlux.Props.C05"], gen=("Codec",), ref="5/C05",
                       replay=fam_c05.replay)
     return reg
